@@ -78,6 +78,20 @@ def oracle(case, R):
     nb = max(nb, 1)
     MS, CS, KS = network(rng, nS, case["propS"], case["zeta"])
     ML, CL, KL = network(rng, nL, case["propL"], case["zeta"])
+    # one heavy dashpot (element-wise damping only): some elastic modes become overdamped (real eigenvalue
+    # pairs) while the others stay underdamped
+    for side, M_, C_, K_ in (("S", MS, CS, KS), ("L", ML, CL, KL)):
+        hv = case.get("heavy" + side, 0.0)
+        if hv and not case["prop" + side] and C_.shape[0] >= 2:
+            r_ = util.rng_of(case["seed"] + (23 if side == "S" else 29))
+            i = int(r_.integers(1, C_.shape[0]))
+            j = int(r_.integers(0, i))
+            c = hv * 2 * np.sqrt(max(abs(K_[i, j]), K_[i, i] / 4) * min(M_[i, i], M_[j, j]))
+            C_[i, i] += c
+            C_[j, j] += c
+            C_[i, j] -= c
+            C_[j, i] -= c
+            R.label(f"heavy{side}")
     # non-reciprocal models: a skew-symmetric (gyroscopic) part in the damping matrix makes the boundary
     # accelerance non-symmetric (H12 != H21), so a transposed apparent mass is no longer the same matrix
     for side, C_ in (("S", CS), ("L", CL)):
@@ -114,6 +128,7 @@ def oracle(case, R):
     A_ref = np.zeros((nb, nf), complex)
     F_ref = np.zeros((nb, nf), complex)
     As = np.zeros((nb, nf), complex)
+    As_full = np.zeros(nf)
     Hs = np.zeros((nb, nf, nb), complex)
     Hl = np.zeros((nb, nf, nb), complex)
     cnd = np.ones(nf)
@@ -132,6 +147,7 @@ def oracle(case, R):
         F_ref[:, j] = (DL @ xL)[bL]
         xs = la.solve(DS, fext[:, j])
         As[:, j] = -W * W * xs[bS]
+        As_full[j] = W * W * np.abs(xs).max()
         Hs[:, j, :] = -W * W * la.inv(DS)[np.ix_(bS, bS)]
         Hl[:, j, :] = -W * W * la.inv(DL)[np.ix_(bL, bL)]
         cnd[j] = max(np.linalg.cond(DS), np.linalg.cond(DL), np.linalg.cond(DT),
@@ -169,13 +185,15 @@ def oracle(case, R):
     out = frclim.ntfl(Source, Load, As, freq)
     tol = CTOL * EPS * cnd
 
-    def cmp(got, ref, kind):
+    def cmp(got, ref, kind, scale=None):
         got = np.asarray(got)
         if got.shape != ref.shape:
             R.fail(kind + "_shape", f"{got.shape} vs {ref.shape}")
             return
         axis = 0 if got.ndim == 2 else (0, 2)
         sc = np.maximum(np.abs(ref).max(axis=axis), 1e-300)
+        if scale is not None:
+            sc = np.maximum(sc, scale)
         err = np.abs(got - ref).max(axis=axis) / sc
         worst = float((err / tol).max())
         R.metric(kind + "/tol", worst)
@@ -215,6 +233,40 @@ def oracle(case, R):
     R.check(np.array_equal(out2.A, out.A) and np.array_equal(out2.F, out.F), "ntfl_AM_inputs_differ")
     # calcAM directly == what ntfl used
     R.check(np.array_equal(frclim.calcAM(Source, freq), out.SAM), "calcAM_vs_ntfl_SAM")
+    # a frequency-domain solver handed in through the documented `fs` argument (recovery-matrix boundary):
+    # any SolveUnc / FreqDirect instance for the Source, also one that was set up (and used) for time-domain
+    # work; the free acceleration from the same solver object equals the independent one
+    fsk = case.get("fs", "none")
+    if fsk != "none" and fS in ("drm", "modal"):
+        from pyyeti import ode
+        m_, c_, k_, T_ = Source
+        if fsk == "FreqDirect":
+            fs = ode.FreqDirect(m_, c_, k_)
+        elif fsk == "SolveUnc":
+            fs = ode.SolveUnc(m_, c_, k_, pre_eig=True)
+        else:
+            fs = ode.SolveUnc(m_, c_, k_, case.get("fs_h", 1e-3), pre_eig=True)
+            if fsk == "SolveUnc_h_used":
+                fs.tsolve(np.real(T_.T @ np.ones((nb, 3))))
+        R.label("fs=" + fsk)
+        fmod = fext
+        if fS == "modal":
+            w_, phi_ = la.eigh(KS, MS)
+            fmod = phi_.T @ fext
+        As_lib = T_ @ fs.fsolve(fmod, freq).a
+        # (an interface response far below the response elsewhere in the Source is a difference of large modal
+        # contributions: the error of a modal solver scales with the largest response, not with that entry)
+        cmp(As_lib, As, "free_acceleration_from_fs_solver", scale=As_full)
+        cmp(frclim.calcAM(Source, freq, fs), SAM_ref, "calcAM_fs_vs_inverse_accelerance")
+        out_fs = frclim.ntfl(frclim.calcAM(Source, freq, fs), Load, As, freq)
+        cmp(out_fs.A, A_ref, "ntfl_fs_interface_acceleration")
+        cmp(out_fs.F, F_ref, "ntfl_fs_interface_force")
+        # eigenvalue regime of the Source (label only)
+        nS_ = MS.shape[0]
+        lamS = la.eigvals(np.block([[-la.solve(MS, CS), -la.solve(MS, KS)], [np.eye(nS_), np.zeros((nS_, nS_))]]))
+        lamS = lamS[np.abs(lamS) > 1e-6 * np.abs(lamS).max()]
+        nre = int(np.sum(np.abs(lamS.imag) <= 1e-9 * np.abs(lamS)))
+        R.label("srcdamp:" + ("under" if nre == 0 else ("over" if nre == len(lamS) else "mixed")))
     # vanishing frequency: rigid mass seen from a single interface DOF
     if nb == 1:
         lam = la.eigvalsh(KS, MS)
@@ -248,7 +300,10 @@ def cases(draw):
             "formS": draw(st.sampled_from(["drm", "modal", "cb"])),
             "formL": draw(st.sampled_from(["drm", "modal", "cb"])),
             "cbpermS": draw(st.booleans()), "cbpermL": draw(st.booleans()),
-            "gyroS": draw(st.sampled_from([0.0, 0.0, 0.3, 1.0])), "gyroL": draw(st.sampled_from([0.0, 0.0, 0.3, 1.0]))}
+            "gyroS": draw(st.sampled_from([0.0, 0.0, 0.3, 1.0])), "gyroL": draw(st.sampled_from([0.0, 0.0, 0.3, 1.0])),
+            "heavyS": draw(st.sampled_from([0.0, 0.0, 1.5, 5.0])), "heavyL": draw(st.sampled_from([0.0, 0.0, 0.0, 3.0])),
+            "fs": draw(st.sampled_from(["none", "FreqDirect", "SolveUnc", "SolveUnc_h", "SolveUnc_h_used"])),
+            "fs_h": draw(st.sampled_from([1e-3, 1e-2]))}
 
 
 PARTS = [
